@@ -308,6 +308,41 @@ func registerVrt(w *World) {
 		}
 		return &StrV{Num: nt}
 	}
+	// ---- lazy token sequences (C04 / C03 / C09 parser harness) ----
+	// vrtTokenExpr(k, alphabet): enables the lexer override: (*Lexer).Next hands
+	// out tokens chosen lazily from the alphabet (at most k, then End).
+	w.Stubs[p+"vrtTokenExpr"] = func(in *Interp, fn *ssa.Function, args []Value) Value {
+		in.tok = &tokenMode{max: cint(in, args[0]), alphabet: strings.Split(cstr(in, args[1]), "\x1f")}
+		in.Draws = append(in.Draws, &Draw{Kind: "tokens", Name: "tokens"})
+		return ConcStr("\x00TOKENS\x00")
+	}
+	// vrtTokenText(i): text of token i ("" = end of input)
+	w.Stubs[p+"vrtTokenText"] = func(in *Interp, fn *ssa.Function, args []Value) Value {
+		return ConcStr(in.tokenAt(cint(in, args[0])))
+	}
+	w.Stubs[p+"vrtTokensSoFar"] = func(in *Interp, fn *ssa.Function, args []Value) Value {
+		var ts []string
+		if in.tok != nil {
+			for _, t := range in.tok.chosen {
+				if t == "" {
+					break
+				}
+				ts = append(ts, t)
+			}
+		}
+		return ConcStr(strings.Join(ts, " "))
+	}
+	w.Stubs[p+"vrtTokensUsed"] = func(in *Interp, fn *ssa.Function, args []Value) Value {
+		if in.tok == nil {
+			return IntC(0)
+		}
+		return IntC(int64(in.tok.nextCalls))
+	}
+	// vrtUntouched: the lazily typed value was never inspected
+	w.Stubs[p+"vrtUntouched"] = func(in *Interp, fn *ssa.Function, args []Value) Value {
+		l, ok := args[0].(*LazyV)
+		return BoolC(ok && l.Res == nil && !l.Touched)
+	}
 	w.Stubs[p+"vrtSameObject"] = func(in *Interp, fn *ssa.Function, args []Value) Value {
 		return BoolC(sameObject(args[0], args[1]))
 	}
@@ -403,6 +438,17 @@ func (in *Interp) CexValues(m map[string]*Term) []map[string]interface{} {
 			e["v"] = string(strConcrete(d.S, m))
 		case "doc":
 			e["v"] = in.concretizeValue(d.V, nil, m)
+		case "tokens":
+			var ts []string
+			if in.tok != nil {
+				for _, t := range in.tok.chosen {
+					if t == "" {
+						break
+					}
+					ts = append(ts, t)
+				}
+			}
+			e["v"] = strings.Join(ts, " ")
 		case "magic":
 			var vs []string
 			for _, t := range d.Ints {
@@ -418,4 +464,33 @@ func (in *Interp) CexValues(m map[string]*Term) []map[string]interface{} {
 		out = append(out, e)
 	}
 	return out
+}
+
+type tokenMode struct {
+	max       int
+	alphabet  []string
+	chosen    []string // "" = end
+	nextCalls int
+}
+
+// tokenAt materialises token i lazily.
+func (in *Interp) tokenAt(i int) string {
+	t := in.tok
+	if t == nil {
+		in.unsupported("token mode not enabled")
+	}
+	for len(t.chosen) <= i {
+		j := len(t.chosen)
+		if j >= t.max || (j > 0 && t.chosen[j-1] == "") {
+			t.chosen = append(t.chosen, "")
+			continue
+		}
+		k := in.choose("token", len(t.alphabet)+1)
+		if k == len(t.alphabet) {
+			t.chosen = append(t.chosen, "")
+		} else {
+			t.chosen = append(t.chosen, t.alphabet[k])
+		}
+	}
+	return t.chosen[i]
 }
